@@ -163,3 +163,18 @@ MUTANTS += [
     ('C20-elements-returns-list', ['C20'], P, "        self.__elements = tuple(elements)", "        self.__elements = elements"),
     ('C20-duplicate-check-counts-motor-name-only', ['C20'], P, "            if count > 1:", "            if count > 1 and name == elements[0].name:"),
 ]
+SG = 'gearpy/mechanical_objects/spur_gear.py'
+HG = 'gearpy/mechanical_objects/helical_gear.py'
+WW = 'gearpy/mechanical_objects/worm_wheel.py'
+MUTANTS += [
+    ('C09-lewis-table-row-edited', ['C09'], 'gearpy/mechanical_objects/gear_data/lewis_factor_table.csv', "43,0.394", "43,0.397"),
+    ('C09-interpolation-without-clamping', ['C09'], MOB, "    fill_value=(\n        LEWIS_FACTOR_DATA.loc[LEWIS_FACTOR_DATA.index[0], 'Lewis Factor'],\n        LEWIS_FACTOR_DATA.loc[LEWIS_FACTOR_DATA.index[-1], 'Lewis Factor']\n    ),", "    fill_value='extrapolate',"),
+    ('C09-radius-is-diameter', ['C09'], SG, "                abs(self.driving_torque)/(self.reference_diameter/2)", "                abs(self.driving_torque)/(self.reference_diameter)"),
+    ('C09-master-slave-torque-swapped', ['C09'], HG, "        if self.mating_role == MatingMaster:\n            self.tangential_force = \\\n                abs(self.load_torque)/(self.reference_diameter/2)\n        elif self.mating_role == MatingSlave:\n            self.tangential_force = \\\n                abs(self.driving_torque)/(self.reference_diameter/2)",
+     "        if self.mating_role == MatingMaster:\n            self.tangential_force = \\\n                abs(self.driving_torque)/(self.reference_diameter/2)\n        elif self.mating_role == MatingSlave:\n            self.tangential_force = \\\n                abs(self.load_torque)/(self.reference_diameter/2)"),
+    ('C09-hertz-constant', ['C09'], SG, "            value=0.262922*sqrt(", "            value=0.262292*sqrt("),
+    ('C09-helical-contact-cos-beta-dropped', ['C09'], HG, "            (self.face_width/self.__helix_angle.cos()*inverse_curvature_sum)", "            (self.face_width*inverse_curvature_sum)"),
+    ('C09-flag-ignores-face-width', ['C09', 'C17'], MOB, "        return (self.__module is not None) and (self.__face_width is not None)\n", "        return (self.__module is not None)\n"),
+    ('C09-mate-without-modulus-tolerated', ['C09'], SG, "            if self.driven_by.elastic_modulus is not None:\n                mate_elastic_modulus = self.driven_by.elastic_modulus\n            else:", "            mate_elastic_modulus = self.driven_by.elastic_modulus or self.elastic_modulus\n            if False:\n                pass\n            else:"),
+    ('C09-worm-effective-width-factor', ['C09'], WW, "                self.face_width, 0.67*self.driven_by.reference_diameter", "                self.face_width, 0.76*self.driven_by.reference_diameter"),
+]
